@@ -108,6 +108,19 @@ CHECKS["C11"] = dict(
               "reads validated by TLC (Trace_Input)",
 )
 
+CHECKS["C02"] = dict(
+    text="VyEmit lowers the parse tree to Python line structure template by template; TLC checks that the lowering of "
+         "every program up to the token bound over the 21-token structural alphabet is valid block structure "
+         "(MC_Emit: is the break/recurse lowering by recorded parent always legal where the line lands?). The real "
+         "transpile() runs on the same programs, on every element and modifier key in every position class, on "
+         "end-truncations and random deep programs; TLC decides well-formedness, Prop_C02 (no exception, compiles) "
+         "and the conformance of the observed line structure with VyEmit.",
+    note="Trusted: VyEmit's transcription of the templates; element/modifier templates enter as line-structure data "
+         "extracted from the working tree; compile() is the ground truth of 'syntactically valid'.",
+    ref="DESIGN.md section 6 C02",
+    technique="TLA+ spec (VyEmit over VyParser) model-checked by TLC + TLC validation of the observed transpiler output",
+)
+
 NOT_APPLICABLE = {}
 
 DEFAULT_NA = ("check under construction in this round; it will be claimed when its TLA+ module and "
